@@ -1,0 +1,54 @@
+//go:build verif
+
+// Verification hooks (build tag "verif"): read accessors and exported aliases
+// that call the router's real unexported methods and nothing else, so that an
+// external harness can deliver protocol events one at a time.
+
+package dv
+
+import (
+	"github.com/named-data/ndnd/dv/nfdc"
+	"github.com/named-data/ndnd/dv/table"
+	"github.com/named-data/ndnd/std/ndn"
+	ndn_sync "github.com/named-data/ndnd/std/sync"
+)
+
+func (dv *Router) VerifRib() *table.Rib                 { return dv.rib }
+func (dv *Router) VerifNeighbors() *table.NeighborTable { return dv.neighbors }
+func (dv *Router) VerifPfx() *table.PrefixTable         { return dv.pfx }
+func (dv *Router) VerifFib() *table.Fib                 { return dv.fib }
+func (dv *Router) VerifNfdc() *nfdc.NfdMgmtThread       { return dv.nfdc }
+func (dv *Router) VerifAdvertSyncSeq() uint64           { return dv.advertSyncSeq }
+
+// VerifLocked runs fn while holding the router's single mutex (consistent reads).
+func (dv *Router) VerifLocked(fn func()) {
+	dv.mutex.Lock()
+	defer dv.mutex.Unlock()
+	fn()
+}
+
+// VerifSelfInit installs the self route exactly as Start does.
+func (dv *Router) VerifSelfInit() {
+	dv.mutex.Lock()
+	defer dv.mutex.Unlock()
+	dv.rib.Set(dv.config.RouterName(), dv.config.RouterName(), 0)
+}
+
+func (dv *Router) VerifAdvertDataOnInterest(args ndn.InterestHandlerArgs) {
+	dv.advertDataOnInterest(args)
+}
+func (dv *Router) VerifAdvertDataHandler(data ndn.Data) { dv.advertDataHandler(data) }
+func (dv *Router) VerifAdvertSyncOnInterest(args ndn.InterestHandlerArgs, active bool) {
+	dv.advertSyncOnInterest(args, active)
+}
+func (dv *Router) VerifAdvertSyncSendInterest() error             { return dv.advertSyncSendInterest() }
+func (dv *Router) VerifRibUpdate(ns *table.NeighborState)         { dv.ribUpdate(ns) }
+func (dv *Router) VerifCheckDeadNeighbors()                       { dv.checkDeadNeighbors() }
+func (dv *Router) VerifFibUpdate()                                { dv.fibUpdate() }
+func (dv *Router) VerifOnPfxSyncUpdate(ssu ndn_sync.SvSyncUpdate) { dv.onPfxSyncUpdate(ssu) }
+func (dv *Router) VerifProcessPrefixData(data ndn.Data, router *table.PrefixTableRouter) {
+	dv.processPrefixData(data, router)
+}
+func (dv *Router) VerifReadvertiseOnInterest(args ndn.InterestHandlerArgs) {
+	dv.readvertiseOnInterest(args)
+}
